@@ -128,7 +128,8 @@ TRUSTED = [
     "the aggregator is an arbitrary function of its input matrix with len(A(M)) = ncols(M)",
     "contract of _materialize (None -> zeros of the input's shape) is applied at its call sites",
 ]
-ASSUMPTIONS = ["C01: precondition — `tensors` non-empty, duplicate-free, at least one scalar in total; every input expects grad"]
+ASSUMPTIONS = ["C01: inputs / parameters that are NON-LEAF tensors retaining grad are outside the discharged obligations: the trusted contract 'torch.autograd.grad writes no .grad field' is false for them (autograd's retain_grad hook fills their .grad during the sweep) - known finding C06.retained_input, reproduced by the bounded arm on every run",
+               "C01: precondition — `tensors` non-empty, duplicate-free, at least one scalar in total; every input expects grad"]
 
 
 # ----------------------------------------------------------------------------- shared with C07 / C13 / C20
